@@ -339,7 +339,7 @@ def run(ctx):
     mjobs = []
     for mode in ("step", "interval", "walltime"):
         for rep in range(ctx.scale(4, 30)):
-            dt = rng.choice([0.01, 0.02, -0.015])
+            dt = rng.choice([0.01, 0.02, -0.015, -0.01])
             val = {"step": rng.choice([1, 1, 2**63, 2**64 - 1, rng.randint(2, 12), rng.randint(2, 12)]), "interval": abs(dt) * (rng.randint(2, 11) + 0.37), "walltime": 1e9}[mode]
             ops = [["attach"]]
             for _ in range(rng.randint(3, 7)):
@@ -353,6 +353,10 @@ def run(ctx):
             ops.append(["integrate", rng.randint(5, 30)])
             mjobs.append({"kind": "automix", "spec": {"n": rng.choice([2, 3]), "integrator": rng.choice(["whfast", "leapfrog", "saba"]), "dt": dt, "t0": rng.choice([0.0, 1.0])},
                           "mode": mode, "val": val, "ops": ops})
+    # directed: the documented restart / re-attach call in both directions of time, t0 != 0
+    for mode, val, dt, t0 in (("interval", 0.0537, -0.01, 0.0), ("interval", 0.0537, -0.01, 2.5), ("interval", 0.0537, 0.01, -1.5), ("step", 5, -0.01, 1.0)):
+        mjobs.append({"kind": "automix", "spec": {"n": 2, "integrator": "whfast", "dt": dt, "t0": t0}, "mode": mode, "val": val,
+                      "ops": [["attach"], ["integrate", 17], ["attach"], ["integrate", 9], ["detach"], ["integrate", 3], ["attach"], ["integrate", 14], ["manual", 4], ["attach"], ["integrate", 8]]})
     mres = run_jobs(libdir, [mjobs[i:i + 3] for i in range(0, len(mjobs), 3)], timeout=120)
     mres = [x for b in mres for x in (b if isinstance(b, list) else [{"died": str(b)}] * 3)]
     mterms_n = []; mterms_f = []; mbad = []
@@ -363,7 +367,16 @@ def run(ctx):
             if "died" in r:
                 mbad.append((job, "driver died: %s" % r["died"], None))
             continue
+        prev_final = None
         for si, s in enumerate(r["segs"]):
+            # the attach rule (reb_simulation_save_to_file_{interval,step}): first attach: threshold = current t / steps_done; re-attach
+            # with the SAME cadence: threshold kept, whatever the direction of time
+            if job["mode"] in ("step", "interval"):
+                key0 = "next_step0" if job["mode"] == "step" else "next0"
+                want = (s["steps_attach"] if job["mode"] == "step" else s["t_attach"]) if si == 0 else prev_final
+                if s[key0] != want:
+                    mbad.append((job, "attach #%d set the threshold to %s, expected %s (%s)" % (si + 1, s[key0], want, "first attach: current value" if si == 0 else "same cadence: kept"), r))
+                prev_final = s["final_next_step"] if job["mode"] == "step" else s["final_next"]
             # library-only oracle: the heartbeat rule "threshold <= current value => snapshot now, threshold += cadence"
             if job["mode"] == "step":
                 nxt = s["next_step0"]; exp = []
